@@ -61,7 +61,7 @@ def rgbaG : G RGBA := do
 def utf8 (s : String) : Bytes := s.toUTF8.data.toList
 
 def nameG : G Bytes := do
-  let k ← below 10
+  let k ← below 12
   match k with
   | 0 => pure []
   | 1 => pure (utf8 "a")
@@ -72,6 +72,8 @@ def nameG : G Bytes := do
   | 6 => pure (List.replicate 300 120)
   | 7 => pure (utf8 "dup")
   | 8 => pure (utf8 "dup")
+  | 10 => pure (utf8 "日本語のノートはここに長く書かれています、四十バイトを超えて")   -- multi-byte text > 40 bytes
+  | 11 => pure (utf8 "ab日本語のノートはここに長く書かれています")
   | _ => do
       let n ← range 1 12
       let cs ← (List.range n).mapM (fun _ => do let c ← range 32 126; pure (UInt8.ofNat c))
@@ -357,7 +359,10 @@ def programG (cfg : Cfg) : G Program := do
             let ts := tilesetSpecs.getD plan.tileset default
             let ox ← below 7
             let oy ← below 7
-            pure (Int16.ofInt (((ox : Int) - 3) * ts.tw.toNat), Int16.ofInt (((oy : Int) - 3) * ts.th.toNat))
+            -- mostly tile-aligned (C08's quantifier); sometimes any pixel offset (C02, C06)
+            let jx ← if ← chance 1 4 then below ts.tw.toNat else pure 0
+            let jy ← if ← chance 1 4 then below ts.th.toNat else pure 0
+            pure (Int16.ofInt (((ox : Int) - 3) * ts.tw.toNat + jx), Int16.ofInt (((oy : Int) - 3) * ts.th.toNat + jy))
           else pure (x, y))
         let cel : ChunkSpec := ⟨.cel ⟨UInt16.ofNat l, x, y, ← edgeByte, ← bytesN 7, body⟩, ← padG pad⟩
         let extra ← (do
@@ -426,6 +431,28 @@ def blendProgram (mode lop cop w h : Nat) (back src : List RGBA) : Program :=
     ⟨.cel ⟨UInt16.ofNat l, 0, 0, UInt8.ofNat op, zeros 7,
            .image (UInt16.ofNat w) (UInt16.ofNat h) (rgbaBytes px) none⟩, []⟩
   ⟨hdr, [⟨100, false, 4, 0, 0, [layer 0 255, layer mode lop, cel 0 255 back, cel 1 cop src]⟩], []⟩
+
+/-- the same enumeration with the source layer stored as a TILEMAP layer: one 1x1 tile per
+    source pixel (tile 0 is the empty tile), so that the blend dispatch of the tilemap renderer is
+    exercised with the same pixel pairs -/
+def blendProgramTiles (mode lop cop w h : Nat) (back src : List RGBA) : Program :=
+  let base := blendProgram mode lop cop w h back src
+  let n := w * h
+  let tilePx := rgbaBytes (RGBA.zero :: src)
+  let ts : TilesetSpec :=
+    { id := 0, flags := 2 + 4, count := UInt32.ofNat (n + 1), tw := 1, th := 1, base := 1,
+      reserved := zeros 14, name := utf8 "ts", extFile := 0, extTileset := 0, clen := 0,
+      pixels := tilePx, z := Zlib.deflateStored tilePx }
+  let tiles : List UInt32 := (List.range n).map (fun i => UInt32.ofNat (i + 1))
+  let tileBytes := (tiles.map u32le).flatten
+  let layer (blend op ltype : Nat) : ChunkSpec :=
+    ⟨.layer ⟨1, UInt16.ofNat ltype, 0, 0, 0, UInt16.ofNat blend, UInt8.ofNat op, 0, 0, utf8 "L", 0⟩, []⟩
+  let cel0 : ChunkSpec :=
+    ⟨.cel ⟨0, 0, 0, 255, zeros 7, .image (UInt16.ofNat w) (UInt16.ofNat h) (rgbaBytes back) none⟩, []⟩
+  let cel1 : ChunkSpec :=
+    ⟨.cel ⟨1, 0, 0, UInt8.ofNat cop, zeros 7,
+           .tilemap (UInt16.ofNat w) (UInt16.ofNat h) ⟨0xffffffff, 0, 0, 0⟩ tiles (Zlib.deflateStored tileBytes)⟩, []⟩
+  { base with frames := [⟨100, false, 5, 0, 0, [⟨.tileset ts, []⟩, layer 0 255 0, layer mode lop 2, cel0, cel1]⟩] }
 
 def blendPixelsG (n : Nat) : G (List RGBA × List RGBA) := do
   let back ← (List.range n).mapM (fun _ => blendPixel)
